@@ -187,7 +187,8 @@ def pct(b, rng=None, always=False):
     return out
 
 
-SAFE_RAW = set(range(0x21, 0x7f)) - set(b'?%+')
+# raw double quote and open parenthesis make the embedded HTTP parser wait for the closing one (front-end matter, not C13)
+SAFE_RAW = set(range(0x21, 0x7f)) - set(b'?%+"(')
 
 
 def enc_seg(seg, rng, mode):
@@ -258,8 +259,8 @@ def gen_cases(ctx):
     lists = [[]] + [[x] for x in asegs] + [[x, y] for x in asegs for y in asegs if len(x) + len(y) < 40]
     core3 = [[x, y, z] for x in CORE_SEGS for y in CORE_SEGS for z in CORE_SEGS]
     if ctx.quick():
-        lists = [l for l in lists if len(l) < 2 or rng.random() < 0.25]
-        core3 = [l for l in core3 if rng.random() < 0.12]
+        lists = [l for l in lists if len(l) < 2 or rng.random() < 0.15]
+        core3 = [l for l in core3 if rng.random() < 0.08]
     for k in range(ncfg):
         for l in lists + core3:
             raw = b'/' + b'/'.join(enc_seg(s, rng, 0) for s in l)
@@ -273,7 +274,7 @@ def gen_cases(ctx):
         targets.append(rel)
     fillers = [[b'.'], [b''], [b'zz', b'..'], [b'a', b'..'], [b'..'], [b'lin', b'..'], [b'lout', b'..'], [b'al', b'..'], [b'..', b'root'],
                [b'..', b'out'], [b'lup'], [b'loop'], [b'd', b'lback', b'..'], [b'.secret', b'..']]
-    for _ in range(ctx.scale(2500, 60000)):
+    for _ in range(ctx.scale(7000, 80000)):
         k = rng.randrange(ncfg)
         rel = list(rng.choice(targets))
         r = rng.random()
@@ -617,8 +618,8 @@ def run(ctx):
             'model and the textbook resolution); rq <k> <hex> = raw request target sent as GET over loopback HTTP to live service k '
             '(8 configurations: check_symlink x listing x 0..2 aliases x sync/async) over the sandbox tree. Exhaustive: all strings of '
             'length <= 8 over {a . /} and length <= 5 over {a . / NUL b} through normalize_path; thorough tier: all segment lists of length '
-            '<= 2 over every name of the sandbox and length 3 over a 19-name core set, for each configuration (quick tier: a seeded quarter / '
-            'eighth of them). Random (seeded): decorated paths to every node inside and outside, segment soup, percent-encoded separators '
+            '<= 2 over every name of the sandbox and length 3 over a 19-name core set, for each configuration (quick tier: a seeded 15 % / '
+            '8 % of them). Random (seeded): decorated paths to every node inside and outside, segment soup, percent-encoded separators '
             'and dots, %00 truncation, query strings, malformed escapes, non-UTF-8 bytes, long targets. Non-trivial: normalize cases that '
             'contain a dot component or a double slash; requests whose reply is not 404. distinct = distinct case lines.')
         ctx.coverage['exhaustive'] = False
